@@ -628,6 +628,17 @@ static void sort_object(cJSON * const object, const cJSON_bool case_sensitive)
         return;
     }
     object->child = sort_list(object->child, case_sensitive);
+
+    /* sort_list only maintains the chain, restore the link from the first to the last child */
+    if (object->child != NULL)
+    {
+        cJSON *last = object->child;
+        while (last->next != NULL)
+        {
+            last = last->next;
+        }
+        object->child->prev = last;
+    }
 }
 
 static cJSON_bool compare_json(cJSON *a, cJSON *b, const cJSON_bool case_sensitive)
